@@ -92,11 +92,24 @@ func jieNear(t ref.DT) (inSlot bool, beforeInSlot bool) {
 
 var reverse = ev.Register(&ev.P[bzCase]{
 	Name: "reverse_lookup_roundtrip",
-	Rule: "moments from Xiaohan of the base year to the end of the current year (every Jie 1900..current year x offsets in minutes {-125,-61,-59,-31,-1,0,+1,+31,+61,+119} swept; Lichun day, both sides of midnight, uniform moments generated), sect in {1,2}, base year in {1900 default, 1600, 1984, 2000, and 1582, 1500, 1000 — whose Jie terms lie on the Julian side of the calendar switch} or any year 900..current; moments also in the first weeks after the base year's first Jie, and (for soundness and the lower bound only) in the weeks before the base year; oracle: forward pillars of the moment -> ListSolarFromBaZiBySectAndBaseYear must contain a moment in the same two-hour slot (completeness), every returned moment converted forward has exactly the requested pillars under the requested sect and year >= base (soundness), the list is strictly increasing by R-civil instant, and the default-argument wrappers equal their explicit forms; non-trivial: the slot contains a Jie instant, is the rat slot, or the day is a Jie day",
+	Rule: "moments from Xiaohan of the base year to the end of the current year (every Jie 1900..current year x offsets in minutes {-125,-61,-59,-31,-1,0,+1,+31,+61,+119} swept; Lichun day, both sides of midnight, uniform moments generated), sect in {1,2} (2 also passed as 0, 3, −1, which mean 2), base year in {1900 default, 1600, 1984, 2000, and 1582, 1500, 1000 — whose Jie terms lie on the Julian side of the calendar switch} or any year 900..current; moments also in the first weeks after the base year's first Jie, and (for soundness and the lower bound only) in the weeks before the base year; oracle: forward pillars of the moment -> ListSolarFromBaZiBySectAndBaseYear must contain a moment in the same two-hour slot (completeness), every returned moment converted forward has exactly the requested pillars under the requested sect and year >= base (soundness), the list is strictly increasing by R-civil instant, and the default-argument wrappers equal their explicit forms; non-trivial: the slot contains a Jie instant, is the rat slot, or the day is a Jie day",
 	Check: func(c bzCase) error {
 		t := c.T
 		p := pillars(t, c.Sect)
-		lst := calendar.ListSolarFromBaZiBySectAndBaseYear(p[0], p[1], p[2], p[3], c.Sect, c.Base)
+		// one case in three, a look-up for the same year and month pillars but an hour pillar that is no pillar comes
+		// first (it panics or returns nothing; recovered): a failed call leaves nothing behind
+		if (t.D+t.H+c.Base)%3 == 0 {
+			func() {
+				defer func() { _ = recover() }()
+				calendar.ListSolarFromBaZiBySectAndBaseYear(p[0], p[1], p[2], []string{"丁巳时", "", "子甲", "甲"}[(t.D+t.Mi)%4], c.Sect, c.Base)
+			}()
+		}
+		// the convention argument as passed: any value but 1 means 2
+		arg := c.Sect
+		if c.Sect == 2 {
+			arg = []int{2, 2, 0, 3, -1}[(t.D+t.Mi+t.S)%5]
+		}
+		lst := calendar.ListSolarFromBaZiBySectAndBaseYear(p[0], p[1], p[2], p[3], arg, c.Base)
 		var got []ref.DT
 		for e := lst.Front(); e != nil; e = e.Next() {
 			s, ok := e.Value.(*calendar.Solar)
